@@ -717,8 +717,10 @@ package bkl
 //@   requires (wfDocs (Parser.docs p) allocTop) (rdistinct (file.docs f))
 //@   requires (forall ((r Int)) (=> (rmem r (file.docs f)) (and (not (= r 0)) (< r allocTop) (not (rmem r (Parser.docs p))))))
 //@   ensures (wfDocs (Parser.docs p) allocTop@post)                                                                                    [C02]
+//@   ensures (forall ((r Int)) (=> (rmem r (Parser.docs p)) (or (rmem r (old (Parser.docs p))) (rmem r (file.docs f)) (>= r allocTop))))   [C02]
 //@   loop 1
 //@     invariant (wfDocs (Parser.docs p) allocTop)
+//@     invariant (forall ((r Int)) (=> (rmem r (Parser.docs p)) (or (rmem r (old (Parser.docs p))) (rmem r (file.docs f)) (>= r (old allocTop)))))
 //@     invariant (= (file.docs f) (old (file.docs f)))
 //@     invariant (forall ((r Int)) (=> (rmem r rest) (not (rmem r (Parser.docs p)))))
 //@     invariant (>= allocTop (old allocTop))
@@ -741,6 +743,14 @@ package bkl
 //@   propagates all   [C08] [C20] [C07] [C03]
 //@   property C02
 //@   modifies Parser.docs, Document.Data, Document.Parents
+//@   uses freshDocsSplitL, freshDocsSplitR, rdistinctDisj, rmemApp, freshDocsMono, wfDocsMono
+//@   requires (wfDocs (Parser.docs p) allocTop)
+//@   ensures (wfDocs (Parser.docs p) allocTop@post)                                                                                    [C02]
+//@   loop 1
+//@     invariant (wfDocs (Parser.docs p) allocTop)
+//@     invariant (<= allocTop@loop allocTop)
+//@     invariant (freshDocs (allFileDocs (heap file.docs) rest) (old allocTop) allocTop@loop)
+//@     invariant (forall ((r Int)) (=> (rmem r (allFileDocs (heap file.docs) rest)) (not (rmem r (Parser.docs p)))))
 
 //@ func Parser.Output(p, format) (out, err)
 //@   property C01, C02, C03, C04, C07, C10, C12, C13, C14, C17 shallow   -- every property that says "... is an error" is observed through this function: a failure below it must surface (propagates)
@@ -835,15 +845,23 @@ package bkl
 //@   property C01, C02, C03, C04, C07, C10, C12, C13, C14, C17 shallow   -- every property that says "... is an error" is observed through this function: a failure below it must surface (propagates)
 //@   propagates all   [C08] [C20] [C07] [C03]
 //@   property C03
-//@   uses rlastSnoc
+//@   uses rlastSnoc, allFileDocsApp, freshDocsAppRL, freshDocsAppLR, freshDocsMono, allFileDocsFrame, allBelowApp, allBelowMono, rappNil
 //@   requires (=> (not (= child 0)) (>= (file.depth child) 0))
 //@   ensures (=> (not (isErr err)) (= (file.id (rlast res)) (ite (= child 0) path (str.++ (old (file.id child)) "|" path))))              [C03]
+//@   ensures (=> (not (isErr err)) (allBelow res allocTop allocTop@post))                                                                [C02]
+//@   ensures (=> (not (isErr err)) (freshDocs (allFileDocs (heap file.docs) res) allocTop allocTop@post))                                 [C02]
+//@   ensures (forall ((r Int)) (=> (< r allocTop) (= (file.docs r) (old (file.docs r)))))
 //@   ensures (forall ((r Int)) (=> (< r allocTop) (= (file.id r) (old (file.id r)))))
 //@   ensures (forall ((r Int)) (=> (< r allocTop) (= (file.depth r) (old (file.depth r)))))
 //@   decreases (- 1001 (ite (= child 0) (- 1) (file.depth child)))
 //@   loop 1
 //@     invariant (forall ((r Int)) (=> (< r (old allocTop)) (= (file.depth r) (old (file.depth r)))))
 //@     invariant (and (<= (file.depth f) 1000) (< f allocTop) (not (= f 0)))
+//@     invariant (and (>= f (old allocTop)) (< f allocTop@loop) (<= allocTop@loop allocTop))
+//@     invariant (freshDocs (file.docs f) (old allocTop) allocTop@loop)
+//@     invariant (allBelow (rapp files RNil) allocTop@loop allocTop)
+//@     invariant (freshDocs (allFileDocs (heap file.docs) files) allocTop@loop allocTop)
+//@     invariant (forall ((r Int)) (=> (< r (old allocTop)) (= (file.docs r) (old (file.docs r)))))
 //@     invariant (= (file.depth f) (ite (= child 0) 0 (+ (old (file.depth child)) 1)))
 //@     invariant (= (file.id f) (ite (= child 0) path (str.++ (old (file.id child)) "|" path)))
 //@     invariant (forall ((r Int)) (=> (< r (old allocTop)) (= (file.id r) (old (file.id r)))))
@@ -932,6 +950,7 @@ package bkl
 
 //@ func New() (res, err)
 //@   property C18
+//@   ensures (=> (not (isErr err)) (and (not (= res 0)) (>= res allocTop) (= (Parser.docs res) RNil)))      [C02]
 //@   effects open-root:os.OpenRoot, env
 //@ func Parser.SetRoot(p, path) (err)
 //@   property C18
